@@ -176,10 +176,52 @@ def cellName (c : Impl.Cell) : String :=
 def dumpRows (rows : List Impl.Row) : String :=
   s!"rows={rows.length}" ++ String.join (rows.map fun r => s!" R{r.r}:" ++ ",".intercalate (r.cells.map cellName))
 
+/-- `key=N` ↦ N -/
+def cnt? (key tok : String) : Option Nat :=
+  if tok.startsWith (key ++ "=") then (tok.drop (key.length + 1)).toNat? else none
+
+def parseSheetTok (tok : String) : Option SheetEnt :=
+  match splitBar tok with
+  | [n, i, r] => match unhexS n, parseInt? i, unhexS r with
+    | some n, some i, some r => some ⟨n, i, r⟩
+    | _, _, _ => none
+  | _ => none
+
+/-- parse the text of `dumpBook` back into a state (`bk.load`: the harness sends the dump of a real
+workbook it opened, so that states the library cannot be driven into from NewFile are reachable) -/
+def parseBook (w : List String) : Option Impl.Book := do
+  let (t, w) ← w.head?.bind (fun t => some (t, w.drop 1))
+  let n ← cnt? "ovr" t
+  let ovr ← allSome ((w.take n).map parsePair)
+  let w := w.drop n
+  let (t, w) ← w.head?.bind (fun t => some (t, w.drop 1))
+  let m ← cnt? "def" t
+  let defs ← allSome ((w.take m).map parsePair)
+  let w := w.drop m
+  guard (w.head? == some ";")
+  let w := w.drop 1
+  let (t, w) ← w.head?.bind (fun t => some (t, w.drop 1))
+  let k ← cnt? "n" t
+  let rels ← allSome ((w.take k).map parseRel)
+  let w := w.drop k
+  guard (w.head? == some ";")
+  let w := w.drop 1
+  let (t, w) ← w.head?.bind (fun t => some (t, w.drop 1))
+  let sN ← cnt? "sheets" t
+  let sheets ← allSome ((w.take sN).map parseSheetTok)
+  let w := w.drop sN
+  let (t, w) ← w.head?.bind (fun t => some (t, w.drop 1))
+  let c ← (if t.startsWith "count=" then (t.drop 6).toInt? else none)
+  let (t, w) ← w.head?.bind (fun t => some (t, w.drop 1))
+  let pN ← cnt? "parts" t
+  let parts ← allSome ((w.take pN).map unhexS)
+  some { ct := { defaults := defs, overrides := ovr }, wbRels := rels, sheets := sheets, wsParts := parts, sheetCount := c }
+
 def bkStep (st : St) (w : List String) : Option (St × String) :=
   let b := st.book
   match w with
   | ["bk.new"] => some ({ st with book := Impl.initBook, srels := none }, dumpBook Impl.initBook)
+  | "bk.load" :: rest => (parseBook rest).map fun b' => ({ st with book := b', srels := none }, dumpBook b')
   | ["bk.newsheet", n] => (unhexS n).map fun n =>
       let b' := Impl.newSheet b n
       ({ st with book := b' }, dumpBook b')
